@@ -469,7 +469,10 @@ Section Reader.
            end.
 
     (* read_fcomponents_until *)
-    Definition parts_body (cl : closing) (rawp tmode : bool) (start : nat) (acc : list tree) (s : text) : res :=
+    (* `start = self.pos` is taken at the top of every iteration of the loop, i.e. it is the length of the
+       input this call starts with; the mode's own start argument only records it *)
+    Definition parts_body (cl : closing) (rawp tmode : bool) (start0 : nat) (acc : list tree) (s : text) : res :=
+      let start := length s in
       match scan true rawp cl false [] s with
       | ScClosed body _ rest =>
           match finish_chunk rawp false body with
@@ -480,7 +483,7 @@ Section Reader.
           match finish_chunk rawp false body with
           | inl v =>
               match rec (MField rawp tmode) rest with
-              | RParts fs rest' => rec (MParts cl' rawp tmode start (rev fs ++ add_str v start (length rest) acc)) rest'
+              | RParts fs rest' => rec (MParts cl' rawp tmode (length rest') (rev fs ++ add_str v start (length rest) acc)) rest'
               | x => x
               end
           | inr e => RPy e
@@ -505,7 +508,7 @@ Section Reader.
             let conv' := match conv with None => if dbg then Some c_r else None | _ => conv end in
             RParts (values ++ [mk orc start (length r) (FComp tmode conv' form_text [m])]) r
           else RLex
-      | [] => RLex
+      | [] => RPrem   (* c = self.getc(); if not c: raise PrematureEndOfInput *)
       end.
 
     (* read_fcomponent *)
@@ -523,7 +526,7 @@ Section Reader.
         | c :: r => if c =? c_bang then
                       match r with
                       | c2 :: r2 => field_after rawp tmode dbg start values m form_text (Some c2) r2
-                      | [] => RLex
+                      | [] => RPrem   (* the conversion character is the empty string: the field ends at the end of input *)
                       end
                     else field_after rawp tmode dbg start values m form_text None s5
         | [] => field_after rawp tmode dbg start values m form_text None s5
